@@ -136,6 +136,10 @@ func c16DecoSets(thorough bool) [][]string {
 		}
 	}
 	sets = append(sets, []string{"hdrparam", "tag-last"})
+	if !thorough {
+		// upper-case compact names (F, T, I, V)
+		sets = append(sets, []string{"compact", "oddcase"})
+	}
 	if thorough {
 		n := len(c16Decos)
 		for mask := 1; mask < 1<<n; mask++ {
